@@ -801,7 +801,7 @@ def mux_simulate(work, stats, n, seed, timeout=120):
     return scs[:n]
 
 
-def run_mux_driver(work, binary, scs, tag, stats, timeout=240):
+def run_mux_driver(work, binary, scs, tag, stats, timeout=240, quiet=False):
     import time
     cin, cout, cst = (work.path("%s-%s" % (tag, x)) for x in ("in.json", "out.ndjson", "stats.json"))
     json.dump(scs, open(cin, "w"))
@@ -810,7 +810,8 @@ def run_mux_driver(work, binary, scs, tag, stats, timeout=240):
     t0 = time.time()
     rc, out, wall = v.run_harness(binary, "TestMux", jp, timeout=timeout)
     if rc != 0 or not os.path.exists(cst):
-        sys.stderr.write(out[-3000:])
+        if not quiet:
+            sys.stderr.write(out[-3000:])
         raise v.Inconclusive("mux driver failed (rc %d)" % rc)
     st = json.load(open(cst))
     stats["wall"]["driver_" + tag] = round(time.time() - t0, 1)
@@ -944,6 +945,9 @@ def c15(tier, seed):
         lines = mux_judge(work, verdict, stats, cout, "mux", scs)
         stats["wall"]["monitor"] = round(time.time() - t0, 1)
         t0 = time.time()
+        gated_check(work, binary, verdict, stats)
+        stats["wall"]["gated"] = round(time.time() - t0, 1)
+        t0 = time.time()
         conf = [s for s in scs if s["rb"] == 1]
         # conformance on the scenarios whose receive queue has the size the model was instantiated with
         keep, ids = [], {s["id"] for s in conf}
@@ -962,6 +966,35 @@ def c15(tier, seed):
     verdict.coverage.update(stats)
     verdict.assumptions = C15_ASSUME
     return verdict.finish()
+
+
+def gated_check(work, binary, verdict, stats, copies=8):
+    """The gated scenarios, several copies each, one driver process per copy. Where a closed packet connection is handed a TCP
+    connection after all, its reader's select between "closed" and "hand over the first packet" is decided by the Go runtime:
+    one branch leaves the connection open for ever (judged by the monitor like any other trace), the other panics inside the
+    library and takes the driver process with it. A run that died is counted and set aside - a dead driver is never a verdict -
+    and the surviving copies are judged."""
+    died, ran = 0, 0
+    for k in range(copies):
+        for j, sc0 in enumerate(MUX_GATED):
+            sc = json.loads(json.dumps(sc0))
+            sc["id"] = 1
+            tag = "gated%d_%d" % (j, k)
+            st = new_stats()
+            st.update({"real_traces": 0, "real_steps": 0, "skipped_actions": 0, "bubble_leaks": 0, "monitor_states": 0})
+            try:
+                cout = run_mux_driver(work, binary, [sc], tag, st, timeout=60, quiet=True)
+            except v.Inconclusive:
+                died += 1
+                continue
+            ran += 1
+            mux_judge(work, verdict, st, cout, tag, [sc])
+            stats["real_traces"] += st["real_traces"]
+            stats["real_steps"] += st["real_steps"]
+            stats["monitor_states"] += st["monitor_states"]
+    stats["gated_scenarios"] = {"shapes": len(MUX_GATED), "copies": copies, "judged": ran, "driver_died": died}
+    if ran == 0:
+        raise v.Inconclusive("every gated scenario killed its driver")
 
 
 def handle_abort_check(work, verdict, stats, copies=6):
@@ -997,6 +1030,17 @@ MUX_HABORT = [
 
 # directed scenarios replayed in every run; the first is the history that reproduced F-C15a (repaired by 1201bc6; the same
 # history also comes from TLC's near-miss counterexample above) and must now pass
+# the gate at AddConn's yield point (tm.addconn): a first frame that has found its packet connection is held there while the
+# application removes the ufrag or closes the mux. Each copy runs in a driver process of its own (see gated_check).
+MUX_GATED = [
+    {"beh": ["late", "silent", "silent"], "rb": 1, "later": 1, "tag": "directed RemoveConnByUfrag while a first frame is being attached (gate at AddConn)",
+     "acts": [{"ev": "Get", "u": "u1", "w": True}, {"ev": "Dial", "c": 1, "w": True}, {"ev": "HoldAdd", "w": True}, {"ev": "Send", "c": 1, "w": True},
+              {"ev": "Remove", "u": "u1", "w": True}, {"ev": "FreeAdd", "w": True}, {"ev": "Advance", "w": True}]},
+    {"beh": ["late", "late", "silent"], "rb": 1, "later": 1, "tag": "directed Close while first frames are being attached (gate at AddConn)",
+     "acts": [{"ev": "Dial", "c": 1, "w": True}, {"ev": "Dial", "c": 2, "w": True}, {"ev": "HoldAdd", "w": True}, {"ev": "Send", "c": 1, "w": True},
+              {"ev": "Send", "c": 2, "w": True}, {"ev": "Close", "w": True}, {"ev": "FreeAdd", "w": True}, {"ev": "Advance", "w": True}]},
+]
+
 MUX_DIRECTED = [
     {"beh": ["known", "silent", "silent"], "rb": 1, "later": 1, "tag": "directed dual-stack ufrag: RemoveConnByUfrag clears both tables",
      "acts": [{"ev": "Dial", "c": 1, "w": True}, {"ev": "Send", "c": 1, "w": True}, {"ev": "Get", "u": "u1", "w": True}, {"ev": "Get", "u": "u1/6", "w": True},
